@@ -833,7 +833,9 @@ class HistoryGen:
         ns = fam["ns"]
         syms = list(fam["symbols"])
         rng.shuffle(syms)
-        if rng.random() < 0.3:
+        if fam["variants"] and syms == fam["variants"][-1][1]["fields"][0]["type"].get("symbols"):
+            syms.reverse()                                     # a permutation that really differs from the previous variant
+        if rng.random() < 0.15:
             syms.insert(rng.randrange(len(syms) + 1), "Z%d" % rng.randrange(3))
         sub_fields = [{"name": "p", "type": rng.choice(["long", "long", "string", "double"])}, {"name": "q", "type": "string"}]
         if rng.random() < 0.5:
@@ -873,12 +875,16 @@ class HistoryGen:
             self.families.append({"ns": rng.choice(["", "", "ns", "a.b"]), "symbols": rng.sample(["A", "B", "C", "D"], rng.randrange(2, 5)),
                                   "variants": []})
         fam = rng.choice(self.families)
-        for _ in range(rng.choice([1, 2, 2])):
-            if len(fam["variants"]) < 2 or (len(fam["variants"]) < 5 and rng.random() < 0.4):
-                fam["variants"].append(self.redefined_variant(fam))
-            arg, raw, defined = rng.choice(fam["variants"])
-            k = rng.choice(["schemaless_writer", "schemaless_writer", "writer", "json_writer", "validate",
-                            "schemaless_reader", "reader", "json_reader"])
+        while len(fam["variants"]) < 2:
+            fam["variants"].append(self.redefined_variant(fam))
+        if len(fam["variants"]) < 5 and rng.random() < 0.4:
+            fam["variants"].append(self.redefined_variant(fam))
+        # each invocation: the family's names under (at least) two different definitions, one after the other
+        order = rng.sample(fam["variants"], 2) + [rng.choice(fam["variants"]) for _ in range(rng.choice([0, 1]))]
+        paired = rng.choice(["schemaless_writer", "writer", "json_writer", None, None])      # often the same writing API for both
+        for arg, raw, defined in order:
+            k = paired or rng.choice(["schemaless_writer", "schemaless_writer", "writer", "json_writer", "validate",
+                                      "schemaless_reader", "reader", "json_reader"])
             if k in ("schemaless_writer", "writer", "json_writer", "validate"):
                 recs = [DataGen(rng, "write", defined).gen(raw) for _ in range(rng.randrange(1, 3))]
                 if k == "schemaless_writer":
